@@ -1,4 +1,17 @@
+from ...utils.bitfun import correct
 from .nodes import types, expressions, declarations
+
+
+def _c_div(x, y):
+    """Integer division, truncating toward zero."""
+    q = abs(x) // abs(y)
+    return -q if (x < 0) != (y < 0) else q
+
+
+def _c_rem(x, y):
+    """Integer remainder, result has the sign of the dividend."""
+    r = abs(x) % abs(y)
+    return -r if x < 0 else r
 
 
 class ConstantExpressionEvaluator:
@@ -11,6 +24,11 @@ class ConstantExpressionEvaluator:
         """Evaluate an expression right now! (=at compile time)"""
         if isinstance(expr, expressions.BinaryOperator):
             value = self.eval_binop(expr)
+        elif isinstance(expr, expressions.TernaryOperator):
+            if self.eval_expr(expr.a):
+                value = self.eval_expr(expr.b)
+            else:
+                value = self.eval_expr(expr.c)
         elif isinstance(expr, expressions.UnaryOperator):
             value = self.eval_unop(expr)
         elif isinstance(expr, expressions.VariableAccess):
@@ -34,6 +52,13 @@ class ConstantExpressionEvaluator:
             value = expr
         else:  # pragma: no cover
             raise NotImplementedError(str(expr))
+        return value
+
+    def convert(self, value, typ):
+        """Convert an integer value to the given integer type."""
+        if isinstance(value, int) and typ.is_integer:
+            bits = self.context.sizeof(typ) * 8
+            value = correct(int(value), bits, typ.is_signed)
         return value
 
     def eval_variable_access(self, expr):
@@ -73,7 +98,7 @@ class ConstantExpressionEvaluator:
 
         # do some real casting:
         if expr.typ.is_integer:
-            value = int(value)
+            value = self.convert(int(value), expr.typ)
         elif expr.typ.is_float or expr.typ.is_double:
             value = float(value)
         else:
@@ -88,7 +113,9 @@ class ConstantExpressionEvaluator:
                 "-": lambda x: -x,
                 "~": lambda x: ~x,
             }
-            value = op_map[expr.op](a)
+            value = self.convert(op_map[expr.op](a), expr.typ)
+        elif expr.op == "!":
+            value = int(not self.eval_expr(expr.a))
         elif expr.op == "&":
             value = self.eval_take_address(expr.a)
         else:  # pragma: no cover
@@ -108,11 +135,20 @@ class ConstantExpressionEvaluator:
             "+": lambda x, y: x + y,
             "-": lambda x, y: x - y,
             "*": lambda x, y: x * y,
+            "<": lambda x, y: int(x < y),
+            ">": lambda x, y: int(x > y),
+            "<=": lambda x, y: int(x <= y),
+            ">=": lambda x, y: int(x >= y),
+            "==": lambda x, y: int(x == y),
+            "!=": lambda x, y: int(x != y),
+            "&&": lambda x, y: int(bool(x) and bool(y)),
+            "||": lambda x, y: int(bool(x) or bool(y)),
         }
 
         # Ensure division is integer division:
         if expr.typ.is_integer:
-            op_map["/"] = lambda x, y: x // y
+            op_map["/"] = _c_div
+            op_map["%"] = _c_rem
             op_map[">>"] = lambda x, y: x >> y
             op_map["<<"] = lambda x, y: x << y
             op_map["|"] = lambda x, y: x | y
@@ -121,5 +157,5 @@ class ConstantExpressionEvaluator:
         else:
             op_map["/"] = lambda x, y: x / y
 
-        value = op_map[op](lhs, rhs)
+        value = self.convert(op_map[op](lhs, rhs), expr.typ)
         return value
